@@ -132,6 +132,7 @@ package jsonata
 //@ paramrule data env ensures (r1 != nil ==> !valid(r0)) && ((r1 == nil && valid(r0)) ==> canif(r0))
 //@ mapinv map[string]reflect.Value ifaceable
 //@ fieldpred jsonata.lambdaCallable.context ifaceable
+//@ fieldpred jsonata.goCallable.context ifaceable
 //@ fieldpred jsonata.partialCallable.context ifaceable
 //@ nonnil field jsonata.lambdaCallable.env jsonata.transformationCallable.env
 //@ func eval
@@ -590,6 +591,7 @@ package jsonata
 //@   atcall[C12:called-with-all-arguments] iface:Call#0 requires len(callee_arg1) == len(node.Args)
 //@   loop 0 calls [C12:every-argument-evaluated] eval#1
 //@   loop 0 invariant -1 <= $i0 && len(argv) == len(node.Args) && fn != nil
+//@   loop 0 invariant local(argv) && argsUsable(argv)
 
 //@ func evalFunctionApplication
 //@   props C12 C09 C05
@@ -617,9 +619,10 @@ package jsonata
 //@ func (*partialCallable).Call
 //@   props C12 C09
 //@   opaque-arith
-//@   requires f != nil
+//@   requires f != nil && argsUsable(argv)
 //@   preserves f
 //@   ensures [C12:error-has-no-value] r1 != nil ==> !valid(r0)
+//@   loop 0 invariant local(args)
 //@   atcall[C12:fixed-arguments-at-definition-site] eval#0 requires callee_node == arg && callee_input == f.context && callee_env == f.env
 //@   atcall[C12:all-arguments-passed] iface:Call#0 requires callee_recv == f.fn && len(callee_arg1) == len(f.args)
 //@   loop 0 invariant -1 <= $i0 && len(args) == len(f.args) && err == nil
@@ -668,8 +671,9 @@ package jsonata
 //@   props C20 C09
 //@   opaque-arith
 //@   precise-append
-//@   requires gcOK(c)
+//@   requires gcOK(c) && argsUsable(argv)
 //@   ensures [C20+C09:count-error-has-no-arguments] r1 != nil ==> len(r0) == 0
+//@   ensures [C20+C09:arguments-stay-usable] r1 == nil ==> argsUsable(r0)
 //@   ensures [C20+C09:accepted-count-fits] r1 == nil ==> (c.isVariadic ? len(r0) >= len(c.params) - 1 : len(r0) == len(c.params))
 //@   atcall[C20:context-handler-first-on-supplied-arguments] functype:ArgHandler#0 requires self == c.contextHandler && callee_arg0 == old(argv)
 //@   atcall[C20:undefined-handler-after-context-insertion] functype:ArgHandler#1 requires self == c.undefinedHandler && callee_arg0 == argv && ((c.contextHandler != nil && ret("functype:ArgHandler#0", 0)) ==> (len(argv) == len(old(argv)) + 1 && argv[0] == c.context)) && (!(c.contextHandler != nil && ret("functype:ArgHandler#0", 0)) ==> argv == old(argv))
@@ -677,17 +681,19 @@ package jsonata
 //@   atcall[C20:error-reports-supplied-count] newArgCountError#1 requires callee_received == len(old(argv))
 //@   atif[C20:only-optional-parameters-are-filled] "c.params[i].isOpt" iff c.params[i].isOpt
 //@   loop 0 invariant i == len(argv) && paramCount == len(c.params) && argc == len(old(argv)) && gcOK(c)
+//@   loop 0 invariant argsUsable(argv)
 
 // goCallable.validateArgTypes: every argument is converted to its parameter's type (the last parameter's for the
 // variadic tail); the first one that does not fit is an ArgTypeError naming its 1-based position
 //@ func processGoCallableArg
 //@   props C20 C09
-//@   assigns heap
-//@   trusted
+//@   requires ifaceable(arg)
+//@   assigns assumed nothing
 //@ func (*goCallable).validateArgTypes
 //@   props C20 C09
 //@   opaque-arith
 //@   requires gcOK(c) && (c.isVariadic ? len(argv) >= len(c.params) - 1 : len(argv) == len(c.params))
+//@   requires argsUsable(argv)
 //@   preserves c
 //@   ensures [C20+C09:type-error-has-no-arguments] r1 != nil ==> len(r0) == 0
 //@   ensures [C20+C09:same-argument-list] r1 == nil ==> (len(r0) == len(argv) && arr(r0) == arr(argv))
@@ -695,6 +701,7 @@ package jsonata
 //@   atcall[C20:parameter-of-the-position] processGoCallableArg#0 requires callee_param == c.params[(i >= paramCount ? paramCount - 1 : i)]
 //@   atcall[C20:error-names-position] newArgTypeError#0 requires callee_which == i + 1
 //@   loop 0 invariant -1 <= $i0 && paramCount == len(c.params) && gcOK(c)
+//@   loop 0 invariant forall k in [$i0 + 1, len(argv)): ifaceable(argv[k])
 //@   loop 0 invariant c.isVariadic ==> len(argv) >= len(c.params) - 1
 //@   loop 0 invariant !c.isVariadic ==> len(argv) == len(c.params)
 
@@ -702,7 +709,7 @@ package jsonata
 // value' with a nil error; any other error of the function is Eval's error; otherwise the first result is the value
 //@ func (*goCallable).Call
 //@   props C20 C09
-//@   requires gcOK(c) && kind(c.fn) == 19
+//@   requires gcOK(c) && kind(c.fn) == 19 && argsUsable(argv)
 //@   preserves c
 //@   ensures [C20:count-error-propagates] (ret("goCallable.validateArgCount#0", 1) != nil && ret("goCallable.validateArgCount#0", 1) != jtypes.ErrUndefined) ==> (r1 == ret("goCallable.validateArgCount#0", 1) && !valid(r0))
 //@   ensures [C20:undefined-handler-is-no-value] ret("goCallable.validateArgCount#0", 1) == jtypes.ErrUndefined ==> (r1 == nil && !valid(r0))
